@@ -309,6 +309,46 @@ func c01Events() []c01Ev {
 			c01Ev{"changeOutOfRange(" + f + ")", func(s *drv.Server, st *c01HistState) error {
 				return s.ChangeInc(f, []drv.Edit{{Range: drv.Range{Start: drv.Pos{Line: 99, Character: 0}, End: drv.Pos{Line: 99, Character: 5}}, Text: "x"}})
 			}},
+			c01Ev{"queriesThenResolveStaleItems(" + f + ")", func(s *drv.Server, st *c01HistState) error {
+				// a long candidate list, then a shorter one, then completionItem/resolve of every item of the first list
+				// (an editor resolves the item the user has highlighted, which may come from the previous list)
+				comp := func(l, c int) ([]json.RawMessage, error) {
+					raw, err := s.CallRaw("textDocument/completion", map[string]interface{}{"textDocument": map[string]interface{}{"uri": s.URI(f)},
+						"position": map[string]interface{}{"line": l, "character": c}, "context": map[string]interface{}{"triggerKind": 1}})
+					if err != nil {
+						if _, isRPC := err.(*drv.RPCError); isRPC {
+							return nil, nil
+						}
+						return nil, err
+					}
+					var items []json.RawMessage
+					if json.Unmarshal(raw, &items) != nil {
+						var wrapped struct {
+							Items []json.RawMessage `json:"items"`
+						}
+						json.Unmarshal(raw, &wrapped)
+						items = wrapped.Items
+					}
+					return items, nil
+				}
+				long, err := comp(1, 1)
+				if err != nil {
+					return err
+				}
+				if _, err := comp(0, 7); err != nil {
+					return err
+				}
+				for _, it := range long {
+					var item interface{}
+					json.Unmarshal(it, &item)
+					if _, err := s.CallRaw("completionItem/resolve", item); err != nil {
+						if _, isRPC := err.(*drv.RPCError); !isRPC {
+							return err
+						}
+					}
+				}
+				return nil
+			}},
 			c01Ev{"queries(" + f + ")", func(s *drv.Server, st *c01HistState) error {
 				for _, p := range [][2]int{{0, 0}, {0, 7}, {4, 6}} {
 					for _, k := range []string{"hover", "definition", "references", "completion", "documentSymbol"} {
@@ -349,6 +389,29 @@ func c01Events() []c01Ev {
 			rem := map[string]interface{}{"event": map[string]interface{}{"removed": []interface{}{map[string]interface{}{"uri": "file://" + sub, "name": "extra"}}, "added": []interface{}{}}}
 			return s.Notify("workspace/didChangeWorkspaceFolders", rem)
 		}},
+	)
+	// workspace folders the server already covers: the root itself, its parent, a sub-directory, the same outside folder twice
+	wf := func(name string, uris func(s *drv.Server) (added, removed []string)) c01Ev {
+		return c01Ev{name, func(s *drv.Server, st *c01HistState) error {
+			a, rm := uris(s)
+			mk := func(us []string) []interface{} {
+				out := []interface{}{}
+				for _, u := range us {
+					out = append(out, map[string]interface{}{"uri": "file://" + u, "name": filepath.Base(u)})
+				}
+				return out
+			}
+			return s.Notify("workspace/didChangeWorkspaceFolders", map[string]interface{}{"event": map[string]interface{}{"added": mk(a), "removed": mk(rm)}})
+		}}
+	}
+	evs = append(evs,
+		wf("workspaceFolders(add the root again)", func(s *drv.Server) ([]string, []string) { return []string{s.Root}, nil }),
+		wf("workspaceFolders(add the parent of the root)", func(s *drv.Server) ([]string, []string) { return []string{filepath.Dir(s.Root)}, nil }),
+		wf("workspaceFolders(add a sub-directory, twice)", func(s *drv.Server) ([]string, []string) {
+			os.MkdirAll(filepath.Join(s.Root, "subdir"), 0o755)
+			return []string{filepath.Join(s.Root, "subdir"), filepath.Join(s.Root, "subdir")}, nil
+		}),
+		wf("workspaceFolders(remove the root)", func(s *drv.Server) ([]string, []string) { return nil, []string{s.Root} }),
 	)
 	return evs
 }
